@@ -118,6 +118,13 @@ def while_span(func, nth: int = 0) -> tuple[int, int]:
     return first + n.lineno - 1, first + n.end_lineno - 1
 
 
+def if_lines(func) -> set:
+    """File line numbers of the `if` statements of func."""
+    src, first = inspect.getsourcelines(func)
+    tree = ast.parse(textwrap.dedent("".join(src)))
+    return {first + n.lineno - 1 for n in ast.walk(tree) if isinstance(n, ast.If)}
+
+
 class Adapter:
     """Base: patching helpers + the questions the C10 oracle asks."""
 
@@ -176,10 +183,6 @@ class Adapter:
         """{thread target name: (while first line, while last line)} of the polling loops."""
         c = self.cls()
         return {n: while_span(getattr(c, n)) for n in self.poller_targets}
-
-    def start_check_funcs(self) -> tuple:
-        """Names of the functions in which a submission decides whether to start a poller."""
-        return ("_start",)
 
 
 _MISSING = object()
